@@ -10,7 +10,7 @@ for D in $DIRS; do
   [ -f "$D/patch.diff" ] || continue
   git -C /repo worktree remove --force $WT >/dev/null 2>&1; rm -rf $WT
   git -C /repo worktree add --detach -q $WT HEAD >/dev/null 2>&1
-  if ! git -C $WT apply "$PWD/$D/patch.diff" 2>/dev/null; then echo "$D: OBSOLETE (patch does not apply to HEAD)"; continue; fi
+  if ! git -C $WT apply "$(cd "$D" && pwd)/patch.diff" 2>/dev/null; then echo "$D: OBSOLETE (patch does not apply to HEAD)"; continue; fi
   /venv/bin/python "$D/demo.py" $WT >/dev/null 2>&1; rc=$?
   if [ $rc -ne 1 ]; then echo "$D: OBSOLETE (demo exits $rc on the patched HEAD)"; continue; fi
   CHECKS=$(python3 -c "import json;m=json.load(open('$D/meta.json'));print(' '.join(m.get('checks') or [m['property']]))")
